@@ -42,6 +42,9 @@ def run_one(mu, baseline):
                 out.insert(0, "MUTANT %-32s %s: CHECK-HUNG (>600s)" % (mu["name"], prop))
                 continue
             det = r.returncode == 1 and "VIOLATION property=" in r.stdout
+            if mu.get("negative"):
+                out.insert(0, "CONTROL %-31s %s: %s" % (mu["name"], prop, "FALSE-ALARM" if det else "stays green (ok)" if r.returncode == 0 else "rc=%d" % r.returncode))
+                continue
             out.insert(0, "MUTANT %-32s %s: %s" % (mu["name"], prop, "DETECTED" if det else "MISSED (rc=%d)" % r.returncode))
             if not det:
                 out.append("  " + "\n  ".join(r.stdout.strip().splitlines()[-4:]))
